@@ -40,6 +40,9 @@ pub enum Script {
     /// a burst of connections that are reset (SO_LINGER 0) the moment they are established, so that
     /// some of them are already dead when the server gets round to accepting them
     ResetStorm(u8),
+    /// a request head announcing an enormous body (2^31 .. 2^63 bytes) to a buffering endpoint, a few
+    /// body bytes, then the end of the connection
+    HugeAnnounced(u8, End),
 }
 
 fn end() -> impl Strategy<Value = End> {
@@ -63,6 +66,7 @@ fn script() -> impl Strategy<Value = Script> {
         1 => (0u8..4).prop_map(Script::BadUpgrade),
         2 => (0u8..4).prop_map(Script::Valid),
         1 => (0u8..40).prop_map(Script::ResetStorm),
+        1 => (0u8..6, end()).prop_map(|(k, e)| Script::HugeAnnounced(k, e)),
     ]
 }
 
@@ -240,6 +244,12 @@ async fn run_script(addr: std::net::SocketAddr, tls_server: bool, s: Script, id:
         }
         Script::Valid(w) => (valid_request(*w, id), End::Fin, "valid".into(), false, false),
         Script::ResetStorm(_) => unreachable!("handled above"),
+        Script::HugeAnnounced(k, e) => {
+            let n: u64 = [1u64 << 31, 1 << 40, 1 << 50, 1 << 62, (1 << 63) - 1, u64::MAX][*k as usize % 6];
+            let mut r = format!("POST /upload?id={}&max_ms=0 HTTP/1.1\r\nhost: v\r\ncontent-length: {}\r\n\r\n", id, n).into_bytes();
+            r.extend_from_slice(b"only a few bytes follow");
+            (r, e.clone(), "huge-announced-length".into(), false, false)
+        }
     };
     // the server may answer and close while we are still writing
     let _ = conn.send_split(&bytes, &[bytes.len() / 2], 0).await;
